@@ -29,6 +29,9 @@ enum Op {
     Enter(u32, Option<Vec<String>>, Option<Vec<(String, String)>>),
     Exit(usize),
     Adv(u64),
+    /// the isolation rules of the resource are removed by an empty load-for-resource and then loaded
+    /// again (equal content, new ids): the caps must hold afterwards exactly as before
+    ReloadIso,
 }
 
 #[derive(Clone, Debug)]
@@ -50,6 +53,7 @@ impl Case {
                 Op::Enter(b, a, m) => json!(["enter", b, a, m]),
                 Op::Exit(i) => json!(["exit", i]),
                 Op::Adv(ms) => json!(["adv", ms]),
+                Op::ReloadIso => json!(["clear-and-reload-isolation-rules"]),
             }).collect::<Vec<_>>(),
         })
     }
@@ -121,6 +125,8 @@ fn gen_case(rng: &mut Rng, base: u64, long: bool) -> Case {
             Op::Enter(*rng.pick(&[1u32, 1, 1, 1, 2, 3]), args, att)
         } else if k < 9 {
             Op::Exit(rng.below(16) as usize)
+        } else if !iso.is_empty() && rng.chance(1, 4) {
+            Op::ReloadIso
         } else {
             Op::Adv(*rng.pick(&[1u64, 400, 1000, 5000]))
         });
@@ -163,7 +169,7 @@ struct Outcome {
 fn run_case(case: &Case) -> Outcome {
     let res = fresh_name("c05");
     VClock::set_ms(case.t0);
-    let iso_rules: Vec<Arc<isolation::Rule>> = case
+    let mut iso_rules: Vec<Arc<isolation::Rule>> = case
         .iso
         .iter()
         .map(|t| {
@@ -218,6 +224,19 @@ fn run_case(case: &Case) -> Outcome {
     'ops: for (i, op) in case.ops.iter().enumerate() {
         match op {
             Op::Adv(ms) => VClock::advance_ms(*ms),
+            Op::ReloadIso => {
+                isolation::load_rules_of_resource(&res, vec![]).unwrap();
+                let again: Vec<Arc<isolation::Rule>> = case.iso.iter().map(|t| Arc::new(isolation::Rule { resource: res.clone(), threshold: *t, ..Default::default() })).collect();
+                let _ = isolation::load_rules_of_resource(&res, again.clone());
+                iso_rules = again; // rejection reports name the rules by their (new) ids
+                if isolation::get_rules_of_resource(&res).len() != case.iso.len() {
+                    out.violation = Some((
+                        "isolation/rules-not-active-after-clear-and-reload".into(),
+                        format!("op#{i}: after an empty load-for-resource and a reload of the equal rules {} rules are active, {} were given", isolation::get_rules_of_resource(&res).len(), case.iso.len()),
+                    ));
+                    break 'ops;
+                }
+            }
             Op::Exit(k) => {
                 if open.is_empty() {
                     continue;
